@@ -4,6 +4,7 @@ C03 — attribute, index and slice edits behave like edits to a bound-argument l
 Model: `Model/ArgStore.lean` (mirror of config.py / signatures.py). Helper lemmas:
 `Lemmas/Dict.lean`, `Lemmas/View.lean`, `Lemmas/Ops.lean`, `Lemmas/History.lean`.
 -/
+import FiddleModel.Lemmas.ViewDel
 import FiddleModel.Lemmas.SliceBounds
 import FiddleModel.Lemmas.View
 import FiddleModel.Lemmas.History
@@ -222,6 +223,22 @@ private def sg3 : Sig := [{ name := "p", kind := .pk, dflt := true }, { name := 
   { name := "r", kind := .pk, dflt := true }]
 example : ((({} : Cfg).setSlice sg3 { start := some 2, step := some (-1) } [.v 7, .v 8, .v 9]).toOption.map
     (fun c' => sg3.allPositional c'.args)) = some [.v 9, .v 8, .v 7] := by decide
+
+/-- **Deleting a positional parameter's value** (`del cfg.x`, `del cfg[i]` inside the fixed
+    prefix both end in `delValue`): the slot of the view shows what an unconfigured Buildable
+    shows there — the parameter's default, else NO_VALUE — and every other slot is unchanged;
+    the prefix keeps its length. -/
+theorem C03_delete_shows_default (s : Sig) (c c' : Cfg) (k : Key) (j : Nat) (wf : ViewWF s)
+    (hn : c.args.NodupKeys) (hk : (posKeys s 0)[j]? = some k) (h : c.delValue k = .ok c') :
+    viewSlots s c'.args s 0 =
+      (viewSlots s c.args s 0).set j ((viewSlots s ([] : Dict Val) s 0).getD j .nov) := by
+  unfold Cfg.delValue at h
+  split at h
+  · simp only [Except.ok.injEq] at h
+    subst h
+    rw [log_args]
+    exact viewSlots_del s c.args k hn s 0 j wf.keysNodup hk
+  · cases h
 
 /-! ### Attribute edits behave like a dict restricted to the signature -/
 
